@@ -3,20 +3,26 @@
 //
 // Ops (see lean/PubModel/C07/Driver.lean):
 //
-//	tojson <hex>                jsonx.ToJSON
-//	unm <hex>                   jsonx.Unmarshal (trailing-content check)
-//	doc <hex text> <hex want>   oracle only: ToJSON(text), when accepted, must be valid JSON
-//	                            (json.Valid) that encoding/json reads as <want> (exact numbers)
-//	plain <hex text>            oracle only: text is RFC 8259; when ToJSON accepts it, the output
-//	                            must read as encoding/json reads the text itself
-//	trail <hex doc> <hex tail>  oracle only: doc is a complete accepted value and tail has a real
-//	                            token: Unmarshal(doc+tail) and ReadFile must return an error
+//		tojson <hex>                jsonx.ToJSON
+//		unm <hex>                   jsonx.Unmarshal (trailing-content check)
+//		doc <hex text> <hex want>   oracle only: ToJSON(text), when accepted, must be valid JSON
+//		                            (json.Valid) that encoding/json reads as <want> (exact numbers)
+//		plain <hex text>            oracle only: text is RFC 8259; when ToJSON accepts it, the output
+//		                            must read as encoding/json reads the text itself
+//		trail <hex doc> <hex tail>  oracle only: doc is a complete accepted value and tail has a real
+//		                            token: Unmarshal(doc+tail) and ReadFile must return an error
 //
+//	  maybe <hex file content>    oracle only: ReadFileMaybeJSON must fail unless JSONx reads the whole file or the
+//	                              whole file is one plain JSON document (no content after a complete value)
+//	  conc <n> <hex text>         oracle only: n goroutines call ToJSON repeatedly and re-verify earlier results
+//
+// Every tojson result is kept and re-verified after later calls (result-aliased-by-later-call).
 // tojson/unm lines also go to the Lean driver; float and string leaves come
 // back symbolic and are expanded with the strconv / encoding/json calls the code uses.
 package main
 
 import (
+	"bytes"
 	"encoding/json"
 	"fmt"
 	"io"
@@ -24,8 +30,11 @@ import (
 	"math/big"
 	"os"
 	"path/filepath"
+	"runtime"
 	"sort"
+	"strconv"
 	"strings"
+	"sync"
 
 	"shanhu.io/g/jsonx"
 	"verif/harness/c07/jx"
@@ -37,6 +46,7 @@ type ctx struct {
 	j    *hx.Journal
 	work string
 	nf   int
+	keep *jx.Keeper // earlier jsonx.ToJSON results, re-verified after later calls
 }
 
 // checkDoc is the C09 oracle on one text with a known meaning: "" when it
@@ -105,11 +115,24 @@ func (c *ctx) runOp(line string) string {
 	}
 	switch ws[0] {
 	case "tojson":
-		_, out := jx.ImplToJSON(hx.UnHex(ws[1]))
+		in := hx.UnHex(ws[1])
+		x, out := jx.ImplToJSON(in)
+		c.keep.Check(line) // results handed out earlier must not change
+		cp := append([]byte(nil), x...)
+		jx.Scribble(in) // the input belongs to the caller again
+		if !bytes.Equal(x, cp) {
+			c.rep.Fail("result-aliases-input", "the bytes ToJSON returned changed when the input buffer was overwritten", []string{line})
+		}
+		c.keep.Add(line, x)
 		return out
 	case "unm":
 		_, out := jx.ImplUnmarshal(hx.UnHex(ws[1]))
+		c.keep.Check(line)
 		return out
+	case "conc":
+		return c.concurrent(ws, line)
+	case "maybe":
+		return c.maybeJSON(hx.UnHex(ws[1]), line)
 	case "doc":
 		if len(ws) != 4 {
 			return "bad-op"
@@ -156,6 +179,133 @@ func (c *ctx) runOp(line string) string {
 		return "held"
 	}
 	return "bad-op"
+}
+
+// concurrent: n goroutines convert different texts over and over; each keeps its
+// previous result and re-verifies it after its next call, and checks every result.
+func (c *ctx) concurrent(ws []string, line string) string {
+	if len(ws) != 3 {
+		return "bad-op"
+	}
+	n, err := strconv.Atoi(ws[1])
+	text := hx.UnHex(ws[2])
+	if err != nil || n < 1 || n > 8 {
+		return "bad-op"
+	}
+	if _, errs := jsonx.ToJSON(text); errs != nil {
+		return "rejected"
+	}
+	base, _ := jsonx.ToJSON(text)
+	base = append([]byte(nil), base...)
+	fails := make([]string, n)
+	var wg sync.WaitGroup
+	for i := 0; i < n; i++ {
+		wg.Add(1)
+		go func(i int) {
+			defer wg.Done()
+			var prev, prevCopy []byte
+			for it := 0; it < 60; it++ {
+				tag := strconv.Itoa(i*100000 + it)
+				in := []byte("[" + tag + ", " + string(text) + "]")
+				want := "[" + tag + "," + string(base) + "]"
+				x, errs := jsonx.ToJSON(in)
+				if errs != nil {
+					fails[i] = fmt.Sprintf("goroutine %d: ToJSON(%.60q) failed: %v", i, in, errs[0])
+					return
+				}
+				cp := append([]byte(nil), x...)
+				runtime.Gosched()
+				if prev != nil && !bytes.Equal(prev, prevCopy) {
+					fails[i] = fmt.Sprintf("goroutine %d: the bytes of its previous ToJSON result changed: were %.60q, now %.60q", i, prevCopy, prev)
+					return
+				}
+				if string(cp) != want {
+					fails[i] = fmt.Sprintf("goroutine %d: ToJSON(%.60q) = %.60q, want %.60q", i, in, cp, want)
+					return
+				}
+				prev, prevCopy = x, cp
+			}
+		}(i)
+	}
+	wg.Wait()
+	for _, f := range fails {
+		if f != "" {
+			c.rep.Fail("result-aliased-by-later-call:concurrent", f, []string{line})
+			return "aliased"
+		}
+	}
+	return "held"
+}
+
+// maybeJSON drives ReadFileMaybeJSON and ReadFile on a file with the given content.
+// A file is acceptable when JSONx reads all of it or when it is, as a whole, one plain
+// JSON document; anything else (a complete value followed by more content) must be an error.
+func (c *ctx) maybeJSON(content []byte, line string) string {
+	dir := c.work
+	if dir == "" {
+		dir = os.TempDir()
+	}
+	c.nf++
+	p := filepath.Join(dir, fmt.Sprintf("c09-maybe-%d-%d.jsonx", os.Getpid(), c.nf%8))
+	if err := os.WriteFile(p, content, 0o644); err != nil {
+		return "io-error"
+	}
+	defer os.Remove(p)
+	var v, w, x interface{}
+	got := jsonx.ReadFileMaybeJSON(p, &v)
+	jsonxErr := jsonx.Unmarshal(content, &x)
+	wholeErr := json.Unmarshal(content, &w)
+	if got == nil && jsonxErr != nil && wholeErr != nil {
+		c.rep.Fail("maybejson-trailing-accepted",
+			fmt.Sprintf("ReadFileMaybeJSON accepts a file with content %q: JSONx rejects it (%v) and as a whole it is not one JSON document (%v)", content, jsonxErr, wholeErr),
+			[]string{line})
+		return "accepted-with-trailing"
+	}
+	if got == nil && jsonxErr != nil && wholeErr == nil {
+		a, _ := json.Marshal(v)
+		b, _ := json.Marshal(w)
+		if string(a) != string(b) {
+			c.rep.Fail("maybejson-wrong-value", fmt.Sprintf("ReadFileMaybeJSON(%q) = %s, encoding/json reads %s", content, a, b), []string{line})
+			return "wrong-value"
+		}
+	}
+	if rf := jsonx.ReadFile(p, new(interface{})); (rf == nil) != (jsonxErr == nil) {
+		c.rep.Fail("readfile-differs-from-unmarshal", fmt.Sprintf("ReadFile and Unmarshal disagree on %q: %v / %v", content, rf, jsonxErr), []string{line})
+		return "readfile-differs"
+	}
+	switch {
+	case got != nil:
+		return "error"
+	case jsonxErr == nil:
+		return "ok-jsonx"
+	}
+	return "ok-plain-json"
+}
+
+// maybeInputs: <complete plain JSON value that JSONx rejects><trailing junk>, and the
+// same without junk (must be read as plain JSON).
+func (g *gen) maybeInputs(n int) {
+	junk := []string{"", "", " 2", "\n{}", " ]", "}", " garbage", ",", "\n\n[1]", " \"x\"", "\n// c", ";", " null", "\t:"}
+	for i := 0; i < n; i++ {
+		var first string
+		switch g.r.Intn(5) {
+		case 0: // newline before a closing bracket: the semicolon inserter makes JSONx reject it
+			bs, _ := json.MarshalIndent(g.g.Value(2), "", "  ")
+			first = string(bs)
+		case 1:
+			first = hx.Pick(g.r, []string{"[1\n]", "{\"a\":1\n}", "[[]\n]", "{\"a\":{\"b\":[true\n]}}", "[\n1,\n2\n]"})
+		case 2: // escapes legal in JSON only
+			first = hx.Pick(g.r, []string{`"\/"`, `"\ud83d\ude00"`, `["a\/b"]`, `{"k\/":1}`, `{"a":"\ud834\udd1e"}`})
+		case 3: // accepted by both
+			bs, _ := json.Marshal(g.g.Value(2))
+			first = string(bs)
+		default:
+			first = hx.Pick(g.r, []string{"{\"a\":1,\"a\":2\n}", "[1e400]", "{\"a\":[1,2,3\n]}", "1\n", "[\"x\"\n,1]"})
+		}
+		content := first + hx.Pick(g.r, junk)
+		g.add("maybe " + hx.Hex([]byte(content)))
+		g.rep.Count("maybejson")
+	}
 }
 
 type gen struct {
@@ -273,6 +423,7 @@ func main() {
 		"hex, octal, dotted identifier lists) and on RFC 8259 texts; doc/plain/trail evaluate the oracle (json.Valid, encoding/json reads " +
 		"the same value, trailing content is an error); distinct = distinct op line; non-trivial = every op"
 	c := &ctx{rep: rep, j: hx.NewJournal(f.Work), work: f.Work}
+	c.keep = &jx.Keeper{What: "jsonx.ToJSON", Fail: rep.Fail}
 
 	var ops []string
 	if f.Replay != "" {
@@ -358,6 +509,16 @@ func main() {
 		}
 		for i := 0; i < nplain; i++ {
 			g.doc(g.g.Value(1+g.r.Intn(4)), true)
+		}
+		nmaybe, nconc := 600, 6
+		if f.Thorough() {
+			nmaybe, nconc = 20000, 60
+		}
+		g.maybeInputs(nmaybe)
+		for i := 0; i < nconc; i++ {
+			bs, _ := json.Marshal(g.g.Value(2))
+			g.add(fmt.Sprintf("conc %d %s", 2+g.r.Intn(3), hx.Hex(bs)))
+			rep.Count("isolation:concurrent")
 		}
 		// wide and shallow: more containers in one document than the parser's nesting limit
 		wide := jx.Wide(10001)
